@@ -18,16 +18,18 @@ ALIASES = ["BYTE", "WORD", "DWORD", "QWORD", "short", "unsigned int", "long long
 FLOATS = ["float16", "float", "double"]
 SCALARS = INT_SCALARS + FLOATS + ["char", "wchar"]
 BIT_TYPES = ["uint8", "uint16", "uint32", "uint64", "int8", "int16", "int32", "E8", "F16", "uint24", "char"]
-WIDTH = {"uint8": 8, "int8": 8, "E8": 8, "char": 8, "uint16": 16, "int16": 16, "F16": 16, "uint24": 24, "uint32": 32, "int32": 32, "E32": 32, "uint64": 64, "int64": 64}
+WIDTH = {"uint8": 8, "int8": 8, "E8": 8, "char": 8, "uint16": 16, "int16": 16, "F16": 16, "uint24": 24, "uint32": 32, "int32": 32, "E32": 32, "E24": 24, "uint64": 64, "int64": 64}
 ENUMS = {
     "E8": ("enum", "uint8", [("A", 1), ("B", 2), ("C", 7)]),
     "F16": ("flag", "uint16", [("X", 1), ("Y", 2), ("Z", 0x100)]),
     "E32": ("enum", "int32", [("P", 0), ("Q", -1), ("R", 5)]),
+    "E24": ("enum", "uint24", [("U", 0), ("V", 1), ("W", 0x10000)]),
 }
 PREAMBLE = (
     "enum E8 : uint8 { A = 1, B, C = 7 };\n"
     "flag F16 : uint16 { X, Y, Z = 0x100 };\n"
     "enum E32 : int32 { P, Q = -1, R = 5 };\n"
+    "enum E24 : uint24 { U, V, W = 0x10000 };\n"
 )
 
 
